@@ -112,7 +112,13 @@ func isGraphQuery(q models.Query, schema models.IndexSchema) bool {
 	case models.IndexTypeVectorVamana:
 		return true
 	case models.IndexTypeVectorFlat:
-		// a learned quantiser is trained on whatever points exist at the trigger, which
+		// a product quantiser is trained by k-means from a random start: independently
+		// trained instances legitimately hold different centroids (compared warm vs cold
+		// on the same file only, like graphs)
+		if qz := sv.VectorFlat.Quantizer; qz != nil && qz.Type == models.QuantizerProduct {
+			return true
+		}
+		// a learned binary threshold is trained on whatever points exist at the trigger, which
 		// is the same for every configuration; its filter may contain a graph query though
 		if q.VectorFlat.Filter != nil {
 			return isGraphQuery(*q.VectorFlat.Filter, schema)
